@@ -378,7 +378,42 @@ def large_execute(case, stats):
     stats.note(case, True, classes=["large_block"])
 
 
+# ------------------------------------------------------------------------------------------ several index-36 records
+def idx36_strategy():
+    rec = st.one_of(
+        st.tuples(st.just(36), st.sampled_from([1, 1, 3, 2, 0]), S.binary(0, 12)),
+        st.tuples(st.sampled_from([1, 2, 3, 16, 37, 6969]), st.sampled_from([1, 2, 3]), S.binary(0, 8)),
+    )
+    return st.fixed_dictionaries({"records": st.lists(rec, min_size=2, max_size=7)})
+
+
+def idx36_execute(case, stats):
+    """Index 36 is named by the type of each record (SHORT: INJECT_OPTIONS, otherwise WATERMARKHASH) - also when a
+    block holds several index-36 records of different types. (The main sub-check keeps one flavour per block because
+    both flavours share the constant 36 in the constant-indexed views.)"""
+    from dissect.cobaltstrike.beacon import BeaconConfig
+
+    recs = [(i, t, (bytes(v) + b"\x00\x00")[:2] if t == 1 else (bytes(v) + b"\x00" * 4)[:4] if t == 2 else bytes(v)) for i, t, v in case["records"]]
+    block = tlv.encode(recs)
+    ref = tlv.decode(block)
+    c = lib(BeaconConfig, block, what="BeaconConfig(block)")
+    got = [(s_.index.value, s_.type.value, s_.length, bytes(s_.value)) for s_ in c.settings_tuple]
+    eq(got, ref, "decode:settings_tuple", f"settings_tuple of {block.hex()}")
+    flav = lambda t: "SETTING_INJECT_OPTIONS" if t == 1 else "SETTING_WATERMARKHASH"
+    for s_, (i, t, _l, v) in zip(c.settings_tuple, ref):
+        if i == 36:
+            eq(s_.index.name, flav(t), "names:index36_by_type", f"name of the index-36 record of type {t} in {[(r[0], r[1]) for r in ref]}")
+    raw = lib(lambda: c.raw_settings)
+    for t_flav in {flav(t) for i, t, _l, v in ref if i == 36}:
+        check(t_flav in raw, "names:index36_by_type", f"{t_flav} missing from the name-indexed view of {[(r[0], r[1]) for r in ref]}: {list(raw)}")
+        vals = [raw_expect(t, v) for i, t, _l, v in ref if i == 36 and flav(t) == t_flav]
+        check(any(same(raw[t_flav], want) for want, exact in vals if exact) or not all(e for _w, e in vals), "values:raw_wrong", f"{t_flav} = {raw[t_flav]!r}, serialized values of that kind: {vals}")
+    kinds = {flav(t) for i, t, _l, v in ref if i == 36}
+    stats.note(case, len(kinds) == 2, classes=["both_flavours" if len(kinds) == 2 else "one_flavour" if kinds else "no_index36"])
+
+
 SUBS = [
+    Sub("index36_mixed", idx36_execute, strategy=idx36_strategy, examples={"quick": 1600, "thorough": 32000}),
     Sub("large_blocks", large_execute, enumerate=large_enumerate, exhaustive=True),
     Sub("decode_views", execute, strategy=case_strategy, examples={"quick": 6400, "thorough": 128000}),
     Sub("atheris_differential", fuzz_execute, custom=fuzz_custom, shards={"quick": 1, "thorough": 4}),
